@@ -258,7 +258,7 @@ func TestCheck(t *testing.T) {
 	}
 	rec.SetExtra("enumeration", "every edit position 0..L x insertion/removal lengths for each (slice size, length, content kind) shape")
 
-	cfg.SetRapid(cfg.N(250, 5000), 1)
+	cfg.SetRapid(cfg.N(1000, 8000), 1)
 	rapid.Check(t, func(rt *rapid.T) {
 		S := rapid.SampledFrom([]int{4, 8, 12, 16, 64, 100}).Draw(rt, "S")
 		L := rapid.IntRange(1, cfg.N(8, 12)*S).Draw(rt, "L")
